@@ -43,6 +43,11 @@ func c17(c *Ctx) {
 			"no test of the page-size field other than 'is it the encoding 1' is made before the encoding 1 has been turned into 65536", "a 64 KiB-page database would be taken for an invalid file at start-up, and an invalid database file is wiped together with its journal, WAL and LTX files", one)
 		c.Guarded("dbheader/block-cache-sized-only-with-pages", "litefs.(*DB).initDatabaseFile", c.P.PlainCalls("litefs.pageChksumBlock"), gs(GP("(0 < litefs.(*DB).PageN(p0))", true), GP("(0 == litefs.(*DB).PageN(p0))", false)), 1,
 			"start-up computes the block of the last page only when the database header declares pages", "F57: pageChksumBlock asserts a non-zero page number; a journal can restore a page 1 whose in-header page count is 0")
+		c.Guarded("dbheader/start-up-page-size-validated", "litefs.(*DB).initDatabaseFile", Any(c.P.Writes("litefs.DB.pageSize"), c.P.PlainCalls("ltx.ChecksumPages"), c.P.PlainCalls("ltx.LockPgno")),
+			gs(G(`^ltx\.IsValidPageSize\(litefs\.readSQLiteDatabaseHeader\(.*\)#0\.PageSize\)$`, true)), 3,
+			"start-up adopts the header's page size - and checksums the file and computes the lock page with it - only after ltx.IsValidPageSize answered true", "F60: a journal whose page-1 record has a zeroed page-size field passes the sampled journal checksum; rollback restores it and an assertion on the page size made Store.Open panic at every start")
+		c.NoPath("dbheader/start-up-no-assert", "litefs.(*DB).initDatabaseFile", c.P.PlainCalls("litefs.readSQLiteDatabaseHeader"), c.P.PlainCalls("litefs.assert"), 1,
+			"initDatabaseFile makes no assertion about what it read from the file", "file contents are input: an assertion on them is a panic an on-disk mutation can trigger")
 		c.Expect("dbheader/page-size-one-means-64k", joinS(c.fieldStores("litefs.readSQLiteDatabaseHeader", "litefs.sqliteDatabaseHeader.PageSize")), pat("encoding/binary.(bigEndian).Uint16(encoding/binary.BigEndian, @@[16:]);65536")+"|"+pat("65536;encoding/binary.(bigEndian).Uint16(encoding/binary.BigEndian, @@[16:])"), "the page size stored is the field, or 65536 for the encoding 1", "")
 	}
 	c.pageLoopsComplete("complete", "rollbackJournalSegment")
